@@ -630,10 +630,15 @@ Section WP.
         + unfold put. rewrite length_upd_slot. exact Hz.
     Qed.
 
+    Lemma prev_ok_of_slot (st : store) yrz y :
+      s_jar (slot_at st (Z.to_nat (yrz - 1))) = y - 1 -> maxd_at st (Z.to_nat (yrz - 1)) = ylen (y - 1) ->
+      prev_year_ok st yrz y = true.
+    Proof. intros A B. unfold prev_year_ok. unfold maxd_at in B. rewrite A, B, !Z.eqb_refl. reflexivity. Qed.
+
     (* a whole year block at the head of the remaining input *)
     Lemma rm_year_gen (isfirst : bool) y rest Tv yrz (st : store) :
       sy <= y -> 0 <= yrz ->
-      (isfirst = false -> maxd_at st (Z.to_nat (yrz - 1)) = ylen (y - 1)) ->      (* the year before is complete (F32) *)
+      (isfirst = false -> prev_year_ok st yrz y = true) ->      (* the slot before holds the complete year before (F32, F33) *)
       let yrz1 := if isfirst then 1 else yrz + 1 in
       rm_loop sy (block y ++ rest) Tv yrz isfirst st
       = if yrz1 >? Z.of_nat (length st) then Some (st, yrz1 - 1)
@@ -643,8 +648,8 @@ Section WP.
       unfold block. destruct (Z.to_nat (ylen y)) as [|n] eqn:En; [lia|].
       unfold recs_of at 1. cbn [zrange map app rm_loop].
       replace (y <? sy) with false by (symmetry; apply Z.ltb_ge; lia).
-      assert (Hchk : (negb isfirst && (1 =? 1) && negb (maxd_at st (Z.to_nat (yrz - 1)) =? ylen (y - 1))) = false).
-      { destruct isfirst; [reflexivity|]. rewrite (Hprev eq_refl), !Z.eqb_refl. reflexivity. }
+      assert (Hchk : (negb isfirst && (1 =? 1) && negb (prev_year_ok st yrz y)) = false).
+      { destruct isfirst; [reflexivity|]. rewrite (Hprev eq_refl). reflexivity. }
       rewrite Hchk.
       assert (Hsel : (if isfirst then (1, 1) else if 1 =? 1 then (1, yrz + 1) else (Tv + 1, yrz)) = (1, yrz1)).
       { unfold yrz1. destruct isfirst; reflexivity. }
@@ -674,7 +679,7 @@ Section WP.
     (* consecutive complete years y, y+1, ... after the first kept one *)
     Lemma rm_years n : forall y Tv yrz (st : store),
       wf st -> sy <= y -> 0 <= yrz <= Z.of_nat (length st) ->
-      maxd_at st (Z.to_nat (yrz - 1)) = ylen (y - 1) ->
+      prev_year_ok st yrz y = true ->
       exists st' yrz',
         rm_loop sy (flat_map block (zrange y n)) Tv yrz false st = Some (st', yrz') /\
         wf st' /\ length st' = length st /\
@@ -696,8 +701,8 @@ Section WP.
           replace (yrz + 1 - 1) with yrz by lia.
           destruct (place_year_spec st (Z.to_nat yrz) y W ltac:(lia)) as (W1 & L1 & F1 & Y1).
           set (st1 := place_days st (Z.to_nat yrz) y 1 (Z.to_nat (ylen y))) in *.
-          assert (Hp1 : maxd_at st1 (Z.to_nat (yrz + 1 - 1)) = ylen (y + 1 - 1)).
-          { replace (yrz + 1 - 1) with yrz by lia. replace (y + 1 - 1) with y by lia. apply Y1. }
+          assert (Hp1 : prev_year_ok st1 (yrz + 1) (y + 1) = true).
+          { apply prev_ok_of_slot; replace (yrz + 1 - 1) with yrz by lia; replace (y + 1 - 1) with y by lia; apply Y1. }
           destruct (IH (y + 1) (ylen y) (yrz + 1) st1 W1 ltac:(lia) ltac:(lia) Hp1) as (st' & yrz' & R & W' & L' & M' & F' & Y').
           exists st', yrz'. split; [exact R|]. split; [exact W'|]. split; [lia|]. split; [lia|]. split.
           * intros j Hj. rewrite F' by lia. apply F1. lia.
@@ -819,8 +824,8 @@ Section WP.
     replace (1 - 1) with 0 by lia. change (Z.to_nat 0) with 0%nat.
     destruct (place_year_spec st0 0 sy W0 ltac:(lia)) as (W1 & L1 & F1 & Y1).
     set (st1 := place_days st0 0 sy 1 (Z.to_nat (ylen sy))) in *.
-    assert (Hp0 : maxd_at st1 (Z.to_nat (1 - 1)) = ylen (sy + 1 - 1)).
-    { change (Z.to_nat (1 - 1)) with 0%nat. replace (sy + 1 - 1) with sy by lia. apply Y1. }
+    assert (Hp0 : prev_year_ok st1 1 (sy + 1) = true).
+    { apply prev_ok_of_slot; change (Z.to_nat (1 - 1)) with 0%nat; replace (sy + 1 - 1) with sy by lia; apply Y1. }
     destruct (rm_years sy m (sy + 1) (ylen sy) 1 st1 W1 ltac:(lia) ltac:(lia) Hp0) as (st' & yrz' & R & W' & L' & M' & F' & Y').
     rewrite R. eexists. split; [reflexivity|].
     intros y Hy.
@@ -1043,7 +1048,7 @@ Section WP.
   (* complete years with enough slots, followed by further input *)
   Lemma rm_years_rest sy n : forall y Tv yrz (st : store) rest,
     wf st -> sy <= y -> 0 <= yrz -> yrz + Z.of_nat n <= Z.of_nat (length st) ->
-    maxd_at st (Z.to_nat (yrz - 1)) = ylen (y - 1) ->
+    prev_year_ok st yrz y = true ->
     exists st' Tv',
       rm_loop sy (flat_map block (zrange y n) ++ rest) Tv yrz false st = rm_loop sy rest Tv' (yrz + Z.of_nat n) false st' /\
       wf st' /\ length st' = length st /\
@@ -1058,8 +1063,8 @@ Section WP.
       replace (yrz + 1 - 1) with yrz by lia.
       destruct (place_year_spec st (Z.to_nat yrz) y W ltac:(lia)) as (W1 & L1 & F1 & Y1).
       set (st1 := place_days st (Z.to_nat yrz) y 1 (Z.to_nat (ylen y))) in *.
-      assert (Hp1 : maxd_at st1 (Z.to_nat (yrz + 1 - 1)) = ylen (y + 1 - 1)).
-      { replace (yrz + 1 - 1) with yrz by lia. replace (y + 1 - 1) with y by lia. apply Y1. }
+      assert (Hp1 : prev_year_ok st1 (yrz + 1) (y + 1) = true).
+      { apply prev_ok_of_slot; replace (yrz + 1 - 1) with yrz by lia; replace (y + 1 - 1) with y by lia; apply Y1. }
       destruct (IH (y + 1) (ylen y) (yrz + 1) st1 rest W1 ltac:(lia) ltac:(lia) ltac:(lia) Hp1) as (st' & Tv' & R & W' & L' & F' & Y').
       exists st', Tv'. replace (yrz + Z.of_nat (S n)) with (yrz + 1 + Z.of_nat n) by lia.
       split; [exact R|]. split; [exact W'|]. split; [lia|]. split.
@@ -1113,23 +1118,28 @@ Section WP.
     set (st1 := place_days st0 0 sy a (S n0')) in *.
     destruct (J1 ltac:(lia)) as [J1a J1b].
     (* complete years *)
-    assert (Hp1 : maxd_at st1 (Z.to_nat (1 - 1)) = ylen (sy + 1 - 1)).
-    { change (Z.to_nat (1 - 1)) with 0%nat. replace (sy + 1 - 1) with sy by lia. rewrite J1b. unfold n0 in En0. lia. }
+    assert (Hp1 : prev_year_ok st1 1 (sy + 1) = true).
+    { apply prev_ok_of_slot; change (Z.to_nat (1 - 1)) with 0%nat; replace (sy + 1 - 1) with sy by lia; [exact J1a|].
+      rewrite J1b. unfold n0 in En0. lia. }
     destruct (rm_years_rest sy m (sy + 1) (a + Z.of_nat n0') 1 st1 (recs_of yl 1 (Z.to_nat b)) W1 ltac:(lia) ltac:(lia) ltac:(lia) Hp1)
       as (st2 & Tv2 & R2 & W2 & L2 & F2 & Y2).
     rewrite R2.
     (* the year before the last, partial one is complete *)
-    assert (Hlast : maxd_at st2 (Z.to_nat (1 + Z.of_nat m - 1)) = ylen (yl - 1)).
-    { destruct m as [|m'].
-      - change (Z.to_nat (1 + Z.of_nat 0 - 1)) with 0%nat. unfold maxd_at. rewrite (F2 0%nat) by lia.
-        replace (yl - 1) with sy by (unfold yl; lia). unfold maxd_at in J1b. rewrite J1b. unfold n0 in En0. lia.
-      - pose proof (Y2 (Z.to_nat (1 + Z.of_nat (S m') - 1)) ltac:(lia)) as (_ & B & _).
-        rewrite B. f_equal. unfold yl. lia. }
+    assert (Hlast : prev_year_ok st2 (1 + Z.of_nat m) yl = true).
+    { apply prev_ok_of_slot. 
+      - destruct m as [|m'].
+        + change (Z.to_nat (1 + Z.of_nat 0 - 1)) with 0%nat. rewrite (F2 0%nat) by lia. rewrite J1a. unfold yl. lia.
+        + pose proof (Y2 (Z.to_nat (1 + Z.of_nat (S m') - 1)) ltac:(lia)) as (A & _ & _). rewrite A. unfold yl. lia.
+      - destruct m as [|m'].
+        + change (Z.to_nat (1 + Z.of_nat 0 - 1)) with 0%nat. unfold maxd_at. rewrite (F2 0%nat) by lia.
+          replace (yl - 1) with sy by (unfold yl; lia). unfold maxd_at in J1b. rewrite J1b. unfold n0 in En0. lia.
+        + pose proof (Y2 (Z.to_nat (1 + Z.of_nat (S m') - 1)) ltac:(lia)) as (_ & B & _).
+          rewrite B. f_equal. unfold yl. lia. }
     (* last, partial year *)
     set (nb := Z.to_nat b). destruct nb as [|nb'] eqn:Enb; [unfold nb in Enb; lia|].
     unfold recs_of at 1. cbn [zrange map rm_loop].
     replace (yl <? sy) with false by (symmetry; apply Z.ltb_ge; unfold yl; lia).
-    rewrite Hlast. rewrite (Z.eqb_refl (ylen (yl - 1))).
+    rewrite Hlast.
     cbn [Z.eqb Pos.eqb negb andb].
     replace (1 + Z.of_nat m + 1 >? Z.of_nat (length st2)) with false by (symmetry; rewrite Z.gtb_ltb; apply Z.ltb_ge; lia).
     fold (recs_of yl (1 + 1) nb'). change (1 + 1) with 2.
@@ -1213,26 +1223,22 @@ Section WP.
   Qed.
 
   (* ---------------------------------------------------------------- *)
-  (* F32: what an ACCEPTED multi-year file looks like                   *)
+  (* F32, F33: what an ACCEPTED multi-year file looks like               *)
 
-  (* a 1 January is only accepted when the slot it closes ends on the 31 December of the year before *)
+  (* a 1 January is only accepted when the slot it closes holds the year before it, up to its 31 December *)
   Lemma year_change_needs_31dec sy y (r : wrec) rest Tv yrz (st : store) :
-    sy <= y -> maxd_at st (Z.to_nat (yrz - 1)) <> ylen (y - 1) ->
+    sy <= y ->
+    (s_jar (slot_at st (Z.to_nat (yrz - 1))) <> y - 1 \/ maxd_at st (Z.to_nat (yrz - 1)) <> ylen (y - 1)) ->
     rm_loop sy ((y, 1, r) :: rest) Tv yrz false st = None.
   Proof.
     intros Hy Hm. cbn [rm_loop]. replace (y <? sy) with false by (symmetry; apply Z.ltb_ge; lia).
-    replace (maxd_at st (Z.to_nat (yrz - 1)) =? ylen (y - 1)) with false by (symmetry; apply Z.eqb_neq; exact Hm).
-    reflexivity.
+    assert (K : prev_year_ok st yrz y = false).
+    { unfold prev_year_ok. unfold maxd_at in Hm. destruct Hm as [Hm|Hm].
+      - replace (s_jar (slot_at st (Z.to_nat (yrz - 1))) =? y - 1) with false by (symmetry; apply Z.eqb_neq; exact Hm). reflexivity.
+      - replace (s_maxd (slot_at st (Z.to_nat (yrz - 1))) =? ylen (y - 1)) with false by (symmetry; apply Z.eqb_neq; exact Hm).
+        apply andb_false_r. }
+    rewrite K. reflexivity.
   Qed.
-
-  (* the years of the records follow the calendar: a record with day of the year 1 belongs to the year
-     after its predecessor's, any other record to the same year (files sorted by date, no jump over
-     a whole year) *)
-  Fixpoint keys_ok (yprev : Z) (recs : list (mrec T)) : Prop :=
-    match recs with
-    | [] => True
-    | (y, yd, _) :: r => (if yd =? 1 then y = yprev + 1 else y = yprev) /\ keys_ok y r
-    end.
 
   (* every slot before the current one holds a complete year *)
   Definition closed_years (st : store) (yrz : Z) : Prop :=
@@ -1243,52 +1249,42 @@ Section WP.
     intros H. rewrite put_slot_at. replace (Nat.eqb k j) with false by (symmetry; apply Nat.eqb_neq; congruence). reflexivity.
   Qed.
 
-  Lemma put_same (st : store) k y Tv r : (k < length st)%nat -> slot_at (put st k y Tv r) k = put_slot (slot_at st k) y Tv r.
-  Proof.
-    intros H. rewrite put_slot_at, Nat.eqb_refl. replace (k <? length st)%nat with true by (symmetry; apply Nat.ltb_lt; exact H). reflexivity.
-  Qed.
-
   (* if the reader accepts the rest of the file, every year it has closed is complete: all years of an
-     accepted file except the first (may start late) and the last (may end early) have all their days *)
-  Lemma accepted_years_complete sy (recs : list (mrec T)) : forall Tv yrz (st : store) yprev st' yrz',
-    sy <= yprev -> 1 <= yrz <= Z.of_nat (length st) ->
-    s_jar (slot_at st (Z.to_nat (yrz - 1))) = yprev ->
-    keys_ok yprev recs -> closed_years st yrz ->
+     accepted file except the first (may start late) and the last (may end early) have all their days —
+     for ANY record sequence *)
+  Lemma accepted_years_complete sy (recs : list (mrec T)) : forall Tv yrz (st : store) st' yrz',
+    1 <= yrz <= Z.of_nat (length st) -> closed_years st yrz ->
     rm_loop sy recs Tv yrz false st = Some (st', yrz') ->
     closed_years st' yrz' /\ yrz <= yrz'.
   Proof.
-    induction recs as [|[[y yd] r] recs IH]; intros Tv yrz st yprev st' yrz' Hs Hz Hj Hk Hc E.
+    induction recs as [|[[y yd] r] recs IH]; intros Tv yrz st st' yrz' Hz Hc E.
     - cbn in E. injection E as <- <-. split; [exact Hc | lia].
-    - cbn [keys_ok] in Hk. destruct Hk as [Hy Hk]. cbn [rm_loop] in E.
-      assert (Hsy : sy <= y) by (destruct (yd =? 1); lia).
-      replace (y <? sy) with false in E by (symmetry; apply Z.ltb_ge; lia).
+    - cbn [rm_loop] in E.
+      destruct (y <? sy); [apply (IH _ _ _ _ _ Hz Hc E)|].
       cbn [negb andb] in E.
       destruct (yd =? 1) eqn:E1.
-      + (* a 1 January: the slot yrz-1 is closed *)
-        destruct (maxd_at st (Z.to_nat (yrz - 1)) =? ylen (y - 1)) eqn:Em; cbn [negb] in E; [|discriminate].
-        apply Z.eqb_eq in Em. apply Z.eqb_eq in E1. subst yd.
+      + destruct (prev_year_ok st yrz y) eqn:Em; cbn [negb] in E; [|discriminate].
+        unfold prev_year_ok in Em. apply andb_true_iff in Em as [Ej Em]. apply Z.eqb_eq in Ej, Em.
+        apply Z.eqb_eq in E1. subst yd.
         replace (1 =? 1) with true in E by reflexivity. cbn [negb] in E.
         destruct (yrz + 1 >? Z.of_nat (length st)) eqn:G.
         * injection E as <- <-. replace (yrz + 1 - 1) with yrz by lia. split; [exact Hc | lia].
         * rewrite Z.gtb_ltb in G. apply Z.ltb_ge in G.
           replace (yrz + 1 - 1) with yrz in E by lia.
           set (st1 := put st (Z.to_nat yrz) y 1 r) in *.
-          destruct (IH 1 (yrz + 1) st1 y st' yrz') as [A B]; try exact E; try exact Hk; try lia.
+          destruct (IH 1 (yrz + 1) st1 st' yrz') as [A B]; try exact E; try lia.
           -- unfold st1, put. rewrite length_upd_slot. lia.
-          -- replace (yrz + 1 - 1) with yrz by lia. unfold st1. rewrite put_same by lia. reflexivity.
           -- intros j Hjj. unfold maxd_at, st1. rewrite put_other by lia.
              destruct (Z.eq_dec (Z.of_nat j + 1) yrz) as [Eq|Ne].
-             ++ replace j with (Z.to_nat (yrz - 1)) by lia. unfold maxd_at in Em. rewrite Em, Hj. f_equal. lia.
+             ++ replace j with (Z.to_nat (yrz - 1)) by lia. rewrite Em, Ej. reflexivity.
              ++ apply Hc. lia.
           -- split; [exact A | lia].
-      + (* same year, same slot *)
-        apply Z.eqb_neq in E1.
+      + apply Z.eqb_neq in E1.
         destruct (negb (yd =? Tv + 1)); [discriminate|].
         destruct (yrz >? Z.of_nat (length st)) eqn:G; [rewrite Z.gtb_ltb in G; apply Z.ltb_lt in G; lia|].
         set (st1 := put st (Z.to_nat (yrz - 1)) y (Tv + 1) r) in *.
-        destruct (IH (Tv + 1) yrz st1 y st' yrz') as [A B]; try exact E; try exact Hk; try lia.
+        destruct (IH (Tv + 1) yrz st1 st' yrz') as [A B]; try exact E; try lia.
         * unfold st1, put. rewrite length_upd_slot. lia.
-        * unfold st1. rewrite put_same by lia. reflexivity.
         * intros j Hjj. unfold maxd_at, st1. rewrite put_other by lia. apply Hc. exact Hjj.
         * split; [exact A | exact B].
   Qed.
